@@ -278,7 +278,7 @@ func (r *receiver) run(ctx context.Context) error {
 						}
 						metadataParents.pop()
 					}
-					if isDir {
+					if isDir && metaOnly {
 						metadataParents.push(cp)
 					}
 					if metaOnly {
